@@ -167,6 +167,8 @@ func main() {
 		os.Exit(cmdVC(os.Args[2:]))
 	case "list":
 		os.Exit(cmdList(os.Args[2:]))
+	case "replay":
+		os.Exit(cmdReplay(os.Args[2:]))
 	case "frame":
 		c, err := newCtx("/repo", "/verif")
 		if err != nil {
@@ -301,4 +303,46 @@ func writeJSON(path string, v interface{}) error {
 	}
 	os.MkdirAll(filepath.Dir(path), 0o755)
 	return os.WriteFile(path, append(b, '\n'), 0o644)
+}
+
+// cmdReplay re-examines a recorded violation: it prints what the replay file says, re-runs the
+// property's check on the current tree and reports whether the named obligation still fails
+// (exit 1) or is discharged now (exit 0).
+func cmdReplay(args []string) int {
+	fs := flag.NewFlagSet("replay", flag.ExitOnError)
+	verif := fs.String("verif", "/verif", "")
+	repo := fs.String("repo", "/repo", "")
+	prop := fs.String("prop", "", "")
+	file := fs.String("file", "", "")
+	fs.Parse(args)
+	var rec map[string]interface{}
+	if err := readJSON(*file, &rec); err != nil {
+		fmt.Fprintln(os.Stderr, err)
+		return 2
+	}
+	obl, _ := rec["obligation"].(string)
+	fmt.Printf("replay of %s: obligation %s (recorded result: %v)\n", *file, obl, rec["result"])
+	if r, ok := rec["replay"]; ok {
+		b, _ := json.MarshalIndent(r, "", " ")
+		fmt.Printf("recorded replay: %s\n", truncate(string(b), 3000))
+	}
+	tmp, _ := os.MkdirTemp("", "goverif-replay-")
+	defer os.RemoveAll(tmp)
+	rc := cmdCheck([]string{"--prop", *prop, "--repo", *repo, "--verif", *verif, "--out", tmp})
+	var ev Evidence
+	readJSON(filepath.Join(tmp, "evidence", *prop+".json"), &ev)
+	still := false
+	if vs, ok := ev.Coverage["violations"].([]interface{}); ok {
+		for _, v := range vs {
+			if m, ok := v.(map[string]interface{}); ok && m["obligation"] == obl {
+				still = true
+			}
+		}
+	}
+	if still {
+		fmt.Printf("RESULT: obligation %s still fails on the current tree\n", obl)
+		return 1
+	}
+	fmt.Printf("RESULT: obligation %s is discharged (or no longer generated) on the current tree; check exit code %d\n", obl, rc)
+	return 0
 }
